@@ -101,6 +101,14 @@ def body(chk):
                           seed=chk.seed + 900 + rpc, fss=["vtrace"], sels=[("all",), ("slice", 1, 5, 2)], origin="multi", special=False))
     cases.append(dict(level="1.1", images=[("HH", "F1", 5, 2), ("HH", "F2", 5, 2)], rpc=None, seed=chk.seed + 950, fss=["vtrace"],
                       sels=[("all",)], origin="default-options", special=False))
+    # pointwise (vectorised) selections: several points on lines of the SAME group are still one request for that group; and trees
+    # that reach the loading code through a copy keep the grouping they were opened with
+    for j, rpc in enumerate((4, 3, 1024)):
+        cases.append(dict(level="1.5", images=[("HH", None, 12, 4)], rpc=rpc, seed=chk.seed + 860 + j, fss=["vtrace"], origin="pointwise", special=False,
+                          sels=[("points", [0, 1, 2, 9], [0, 3, 1, 2]), ("points", [5, 5, 6], [1, 2, 0]), ("points", [11, 0], [0, 0]), ("points", [2, 3, 2, 3], [0, 1, 2, 3])]))
+    for j, how in enumerate(("pickle", "deepcopy", "tree.copy")):
+        cases.append(dict(level=("1.5", "1.1")[j % 2], images=[("HH", None, 12, 3), ("HV", None, 7, 2)], rpc=(4, 3, 2)[j], seed=chk.seed + 870 + j, fss=["vtrace"],
+                          origin=f"via-{how}", special=False, via_copy=how, sels=[("slice", 2, 7, 1), ("all",), ("list", [0, 6]), ("int", 5)]))
     # transient faults (a read that fails once with an I/O error, with or without having moved the position): the load may raise or
     # must be right, and groups already delivered are not requested again
     for j, (nth, consume) in enumerate([(1, 0.0), (1, 0.5), (2, 0.5), (3, 0.0), (3, 0.5), (4, 1.0)]):
